@@ -77,7 +77,7 @@ def _spec_candidates(spec):
         # drop one op
         for i in range(len(th)):
             for j in range(len(th[i]) - 1, -1, -1):
-                if th[i][j]["op"] in ("create",):
+                if th[i][j]["op"] in ("create",) or th[i][j].get("keep"):
                     continue
                 c = copy.deepcopy(spec)
                 del c["threads"][i][j]
@@ -116,6 +116,8 @@ def _spec_candidates(spec):
         lst = spec.get(key)
         if isinstance(lst, list):
             for i in range(len(lst) - 1, -1, -1):
+                if isinstance(lst[i], dict) and lst[i].get("keep"):
+                    continue
                 c = copy.deepcopy(spec)
                 del c[key][i]
                 yield c
